@@ -90,6 +90,13 @@ def gen_cases(ctx, docs):
                 if len(toks) >= 2 and ctx.rng.random() < 0.25:
                     i = ctx.rng.randrange(len(toks) - 1)
                     add(G.rfc6901_spell(list(toks[:i]) + [m] + list(toks[i + 1:])), True, doc, None, "replace-mid")
+    # member names that are Python strings outside the model's strings (lone surrogates, as json.loads('"\\ud800"') yields):
+    # checked on the implementation only (the pointer spelled from the location must resolve to that node)
+    for doc in ({"\ud800": 1, "x\udfffy": [2, {"\udc00\ud800": 3}], "ok": {"\ud83d": 4}}, [{"\udfff": [5]}]):
+        for toks, _ in G.locations(doc):
+            s = G.rfc6901_spell(toks)
+            add(s, False, doc, list(toks), "location-lone-surrogate")
+            add(s, True, doc, list(toks), "location-lone-surrogate")
     # malformed / glue stream
     odd_docs = [{"a": {"b": [1, 2]}, "é": 1, "a\\": 2, "\n": 3}, [1, [2, 3]]]
     for s in ["", "/", "//", "a", "a/b", " /a", "\t/a/b", "  ", "/a\\u00e9", "/\\u00e9", "/a\\", "/\\u12", "/\\ud800",
@@ -205,9 +212,27 @@ def evaluate(ctx, cases):
     reqs = []
     for c in cases:
         try:
+            c["s"].encode("utf-8")
             reqs.append({"op": "ptr.resolve", "s": c["s"], "ue": c["ue"], "doc": core.enc(c["doc"])})
-        except core.Unencodable:
+        except (core.Unencodable, UnicodeEncodeError):
             reqs.append(None)
+    # cases the driver cannot be given (strings that are not Unicode scalar sequences): implementation-only checks
+    for c, r in zip(cases, reqs):
+        if r is None and c.get("loc") is not None and not (c["ue"] and "\\" in c["s"]):
+            impl = _impl(c)
+            ctx.count("kind:" + c.get("kind", "?") + ":implementation-only")
+            try:
+                node = _node_at(c["doc"], list(c["loc"]))
+            except Exception:  # noqa: BLE001
+                continue
+            got = impl["obj"]
+            same = (got is node) if isinstance(node, (dict, list)) else ("ok" in impl["value"] and type(got) is type(node) and got == node)
+            if not same:
+                ctx.violation("the pointer spelled from a node's location must resolve to that very node, whatever characters the names contain",
+                              {"s": repr(c["s"]), "ue": c["ue"], "loc": [repr(t) for t in c["loc"]]}, impl["value"].get("err", "another value"), "that node")
+            ex = impl["exists"]
+            if ex != {"ok": True}:
+                ctx.violation("exists() must be true for the pointer of an existing node", {"s": repr(c["s"]), "ue": c["ue"]}, ex, {"ok": True})
     live = [(c, r) for c, r in zip(cases, reqs) if r is not None]
     outs = ctx.driver.run([r for _, r in live], jobs=ctx.jobs)
     for (c, _), m in zip(live, outs):
